@@ -75,6 +75,9 @@ func (SlidingWindow) New(cfg Config) fiber.Handler {
 		// Calculate when it resets in seconds
 		resetInSec := e.exp - ts
 
+		// The window this hit is counted in
+		windowEnd := e.exp
+
 		// weight = time until current window reset / total window length
 		weight := float64(resetInSec) / float64(expiration)
 
@@ -121,10 +124,20 @@ func (SlidingWindow) New(cfg Config) fiber.Handler {
 			// Lock entry
 			mux.Lock()
 			e = manager.get(key)
-			e.currHits--
+			// The hit is given back to the window it was counted in: the current one, or - when the
+			// handler outlived its window by less than a window - the previous one. After that it
+			// is outside every sliding window and the newer counts must not be lowered
+			now := uint64(utils.Timestamp())
+			switch {
+			case e.exp == windowEnd:
+				e.currHits--
+				// keep the entry until the end of the next window like above, its hits are still needed as prevHits
+				manager.set(key, e, time.Duration(resetInSec+expiration)*time.Second) //nolint:gosec // Not a concern
+			case e.exp == windowEnd+expiration && e.exp > now && e.prevHits > 0:
+				e.prevHits--
+				manager.set(key, e, time.Duration(e.exp-now+expiration)*time.Second) //nolint:gosec // Not a concern
+			}
 			remaining++
-			// keep the entry until the end of the next window like above, its hits are still needed as prevHits
-			manager.set(key, e, time.Duration(resetInSec+expiration)*time.Second) //nolint:gosec // Not a concern
 			// Unlock entry
 			mux.Unlock()
 		}
